@@ -60,6 +60,11 @@ pub open spec fn den<F: Field>(lv: LeafVals<F>, e: SymbolicExpressionExt<F>) -> 
         XE::Mul { x, y, .. } => den(lv, *x).fmul(den(lv, *y)),
     }
 }
+impl<EF: Field> SymbolicExpressionExt<EF> {
+    /// p3-air SymbolicExpressionExt::to_base: lowers a tree without extension-only leaves to a NEW base expression (an owned temporary) with the same value
+    #[verifier::external_body]
+    pub fn to_base(&self) -> (r: Option<BaseExpr>) ensures r matches Some(b) ==> forall|lv: LeafVals<EF>| #[trigger] den_b(lv, b) == den(lv, *self) { unimplemented!() }
+}
 pub open spec fn size<EF>(e: SymbolicExpressionExt<EF>) -> nat decreases e {
     match e {
         XE::Leaf(_) => 1,
@@ -130,6 +135,7 @@ def build():
     u = Unit('symx', ['C13'])
     u.rlimit = 200
     u.assume('p3-air SymbolicExpressionExt / ExtLeaf / ExtEntry mirrored in the prelude (Arc children as Box); base sub-expressions are opaque with native value den_b (unit sym proves compile_base against it)')
+    u.assume('address-keyed caches: compile_ext is specified for an expression whose base sub-expressions outlive the caches (precondition; the constraint trees borrowed from the symbolic AIR builder do) -- compile_base requires it of its argument, so a temporary tree passed to it is a failed obligation')
     u.assume('compile_base callee contract as proved in unit sym (value = native evaluation, base cache stays sound); resolve_ext_var as proved in unit sym; cache key abstraction NodeKey; builder arithmetic contracts')
     u.text(open(os.path.join(HERE, 'gadget_prelude.rs')).read())
     u.text(SPEC.replace('@@TYPES@@', types_from_repo()))
@@ -144,7 +150,7 @@ def build():
     cb.rewrite('R11', 'circuit.define_const(EF::ZERO)', 'circuit.define_const(EF::zero())')
     cb.rewrite('R4', 'ext_cache.insert(key, id); stack.push(id); } } } stack.pop().unwrap()', 'ext_cache.insert(key, id); stack.push(id); } } } } } stack.pop().unwrap()')
     cb.requires('leaves_allocated', 'xleaves_ok(old(circuit), *self)')
-    cb.requires('variables_in_range', 'vars_in_range(*self, *expr)')
+    cb.requires('variables_in_range_and_base_subexpressions_outlive_the_address_keyed_cache', 'vars_in_range(*self, *expr)')
     cb.requires('caches_sound', 'cache_ok::<EF>(old(circuit), lv_of(*self, old(circuit)), old(ext_cache)@) && bcache_ok::<EF>(old(circuit), lv_of(*self, old(circuit)), old(base_cache)@)')
     cb.ensures('frame', 'final(circuit).extends_pure(old(circuit)) && final(circuit).has(ret)')
     cb.ensures('value_is_native_evaluation', 'final(circuit).val(ret) == den(lv_of(*self, old(circuit)), *expr)')
@@ -165,9 +171,13 @@ pub open spec fn lv_of<F: Field>(sc: SymbolicCompiler<'_>, cb: &CircuitBuilder<F
 pub open spec fn xleaves_ok<F: Field>(cb: &CircuitBuilder<F>, sc: SymbolicCompiler<'_>) -> bool {
     forall|e: ExtEntry, i: int| 0 <= i < ext_slice(*sc.columns, e).len() ==> cb.has(#[trigger] ext_slice(*sc.columns, e)[i])
 }
+/// the pointer-keyed base cache is only sound for nodes that stay alive (at a fixed address) as long as the cache is used: an expression borrowed
+/// from the AIR's constraint trees does, a temporary built inside the compiler does not.  Uninterpreted: nothing but the caller's precondition provides it.
+pub uninterp spec fn outlives_cache(b: BaseExpr) -> bool;
 pub open spec fn vars_in_range<EF>(sc: SymbolicCompiler<'_>, e: SymbolicExpressionExt<EF>) -> bool decreases e {
     match e {
         XE::Leaf(ExtLeaf::ExtVariable(v)) => v.index < ext_slice(*sc.columns, v.entry).len() && (v.entry matches ExtEntry::Permutation { offset } ==> offset <= 1),
+        XE::Leaf(ExtLeaf::Base(b)) => outlives_cache(b),
         XE::Leaf(_) => true,
         XE::Neg { x, .. } => vars_in_range(sc, *x),
         XE::Add { x, y, .. } => vars_in_range(sc, *x) && vars_in_range(sc, *y),
@@ -200,7 +210,8 @@ impl<'a> SymbolicCompiler<'a> {
     /// proved in unit sym (there: value = den of the base expression; base cache stays sound)
     #[verifier::external_body]
     pub fn compile_base<EF: FieldX>(&self, expr: &BaseExpr, circuit: &mut CircuitBuilder<EF>, cache: &mut HashMap<NodeKey, ExprId>) -> (r: ExprId)
-        requires bcache_ok::<EF>(old(circuit), lv_of(*self, old(circuit)), old(cache)@)
+        requires bcache_ok::<EF>(old(circuit), lv_of(*self, old(circuit)), old(cache)@),
+                 outlives_cache(*expr), // the cache keys are node addresses
         ensures final(circuit).extends_pure(old(circuit)), final(circuit).has(r), final(circuit).val(r) == den_b(lv_of(*self, old(circuit)), *expr),
                 bcache_ok::<EF>(final(circuit), lv_of(*self, old(circuit)), final(cache)@)
     { unimplemented!() }
